@@ -24,6 +24,9 @@ func verifFakeBytes(n int) []byte {
 	return b
 }
 
+// verifSliceHeader returns the address of a slice's header (data, len, cap).
+func verifSliceHeader(b *[]byte) unsafe.Pointer { return unsafe.Pointer(b) }
+
 var verifArithArity = map[string]int{
 	"go_addSize": 2, "go_addSizeUnchecked": 2, "go_element": 3, "go_addOffset": 2,
 	"go_times": 2, "go_timesUnchecked": 2, "go_padToWord": 1,
